@@ -321,6 +321,7 @@ func getAndProcessDeals(ctx context.Context, logger log.Logger, dkgc chan *DistK
 		defer close(errc)
 		select {
 		case <-ctx.Done():
+			return
 		case dkg, ok = <-dkgc:
 			if !ok {
 				fmt.Println("getAndProcessDeals dkgc end")
@@ -383,6 +384,7 @@ func getAndProcessResponses(ctx context.Context, logger log.Logger, dkgc chan *D
 		var ok bool
 		select {
 		case <-ctx.Done():
+			return
 		case dkg, ok = <-dkgc:
 			if !ok {
 				return
